@@ -13,9 +13,15 @@
 #include <stdlib.h>
 #include <string.h>
 
+#ifdef WITH_AES_STATIC
+#include AES_C
+#define WITH_FIPS202_STATIC_OR_AES 1
+#endif
 #ifdef WITH_FIPS202_STATIC
 #include FIPS202_C
-#else
+#define WITH_FIPS202_STATIC_OR_AES 1
+#endif
+#ifndef WITH_FIPS202_STATIC_OR_AES
 #include <fips202.h>
 typedef struct { uint64_t *ctx; } xofctx;
 /* non-static symbols of fips202.c that fips202.h does not declare */
@@ -37,7 +43,7 @@ void shake256_inc_squeeze(uint8_t *output, size_t outlen, xofctx *state);
 void shake256_inc_ctx_release(xofctx *state);
 #endif
 
-#ifndef WITH_FIPS202_STATIC
+#ifndef WITH_FIPS202_STATIC_OR_AES
 #include <aes.h>
 #include <rng.h>
 #include <mem.h>
@@ -111,7 +117,48 @@ int main(void) {
         for (char *p = strtok(line, " \r\n"); p && nt < MAXTOK; p = strtok(NULL, " \r\n")) tok[nt++] = p;
         if (nt == 0) { printf("R bad-op\n"); continue; }
         printf("R ");
-#ifdef WITH_FIPS202_STATIC
+#ifdef WITH_AES_STATIC
+        if (!strcmp(tok[0], "aesct.prim") && nt >= 3) {
+            uint64_t r[16]; int np = nt - 2, ok = 1;
+            for (int i = 0; i < np && i < 16; i++) r[i] = parse_num(tok[2 + i]);
+            if (!strcmp(tok[1], "sbox") && np == 8) br_aes_ct64_bitslice_Sbox(r);
+            else if (!strcmp(tok[1], "ortho") && np == 8) br_aes_ct64_ortho(r);
+            else if (!strcmp(tok[1], "shift_rows") && np == 8) shift_rows(r);
+            else if (!strcmp(tok[1], "mix_columns") && np == 8) mix_columns(r);
+            else if (!strcmp(tok[1], "add_round_key") && np == 16) add_round_key(r, r + 8);
+            else if (!strcmp(tok[1], "interleave_in") && np == 6) {
+                uint32_t w[4] = { (uint32_t)r[0], (uint32_t)r[1], (uint32_t)r[2], (uint32_t)r[3] };
+                br_aes_ct64_interleave_in(&r[4], &r[5], w);
+            } else if (!strcmp(tok[1], "interleave_out") && np == 6) {
+                uint32_t w[4];
+                br_aes_ct64_interleave_out(w, r[0], r[1]);
+                for (int i = 0; i < 4; i++) r[2 + i] = w[i];
+            } else ok = 0;
+            if (!ok) printf("bad-op");
+            else for (int i = 0; i < np; i++) printf("%s%llx", i ? " " : "", (unsigned long long)r[i]);
+        } else if (!strcmp(tok[0], "aesct.ecb4x") && nt >= 3) {
+            unsigned nr = (unsigned)parse_num(tok[1]);
+            if (nr > 14 || nt != 2 + 16 + 8 * ((int)nr + 1)) printf("bad-op");
+            else {
+                uint32_t w[16]; uint64_t sk[120]; unsigned char out[64];
+                for (int i = 0; i < 16; i++) w[i] = (uint32_t)parse_num(tok[2 + i]);
+                for (unsigned i = 0; i < 8 * (nr + 1); i++) sk[i] = parse_num(tok[18 + i]);
+                aes_ecb4x(out, w, sk, nr);
+                for (int i = 0; i < 64; i++) printf("%02x", out[i]);
+            }
+        } else if (!strcmp(tok[0], "aesct.keys") && nt == 2) {
+            /* the real AES-256 key schedule: prints the 120 words of sk_exp */
+            uint8_t *k; long kl = parse_bytes(tok[1], &k);
+            if (kl != 32) printf("bad-op");
+            else {
+                uint64_t skey[30], sk[120];
+                br_aes_ct64_keysched(skey, k, 32);
+                br_aes_ct64_skey_expand(sk, skey, 14);
+                for (int i = 0; i < 120; i++) printf("%s%llx", i ? " " : "", (unsigned long long)sk[i]);
+            }
+            free(k);
+        } else printf("bad-op");
+#elif defined(WITH_FIPS202_STATIC)
         if (!strcmp(tok[0], "hash.perm") && nt == 26) {
             uint64_t s[25];
             for (int i = 0; i < 25; i++) s[i] = parse_num(tok[1 + i]);
